@@ -239,6 +239,24 @@ func c15TwinDirs(c *c15Case, r *core.Rec) {
 	r.NontrivialCase()
 }
 
+// c15Siblings: files BESIDE the archive directory whose names begin like the directory's and end like the declared
+// name (arch~notes~<name minus its first byte>, arch<name>, arch-<base name>): a lookup whose prefix lost its trailing
+// separator, or a prefix test without a separator boundary, finds them.
+func c15Siblings(root, name string) []string {
+	base := name
+	if i := strings.LastIndexByte(base, '/'); i >= 0 {
+		base = base[i+1:]
+	}
+	if base == "" || strings.ContainsAny(base, "\x00/") || len(base) > 100 {
+		return nil
+	}
+	out := []string{root + "/arch-" + base, root + "/arch" + base}
+	if len(base) > 1 {
+		out = append(out, root+"/arch~notes~"+base[1:])
+	}
+	return out
+}
+
 func c15Run(ci interface{}, r *core.Rec) {
 	c := ci.(*c15Case)
 	c15Seq++
@@ -355,6 +373,9 @@ func c15Run(ci interface{}, r *core.Rec) {
 		}
 		fs.Put(root+"/canary.txt", []byte("canary"))
 		fs.Put(root+"/outside/keep", []byte("keep"))
+		for _, sib := range c15Siblings(root, c.Name) {
+			fs.Put(sib, []byte("sibling of the archive directory"))
+		}
 		before := fs.Snapshot()
 		if c.FailW {
 			nw := 0
@@ -483,6 +504,9 @@ func c15Run(ci interface{}, r *core.Rec) {
 	ioutil.WriteFile(root+"/canary.txt", []byte("canary"), 0644)
 	ioutil.WriteFile(root+"/outside/keep", []byte("keep"), 0644)
 	ioutil.WriteFile(root+"/a", []byte("decoy named a"), 0644)
+	for _, sib := range c15Siblings(root, c.Name) {
+		ioutil.WriteFile(sib, []byte("sibling of the archive directory"), 0644)
+	}
 	ioutil.WriteFile(arch+"/sub/keep", []byte("inner"), 0644)
 	for n, b := range files {
 		os.MkdirAll(filepath.Dir(arch+"/"+n), 0755)
